@@ -38,6 +38,7 @@ type harnessCfg struct {
 	Name     string
 	Tiers    map[string]tierCfg
 	MapOrder bool
+	Repeat   int // native replays per counterexample (schedule / map-order dependent behaviour)
 	Anchors  []string // functions of please that must be executed symbolically
 	Note     string
 }
@@ -189,6 +190,7 @@ type harnessReport struct {
 	Result      *interp.Result
 	Reproduced  []string
 	Discrepancy []string
+	NoSampleReplay bool
 }
 
 func cmdCheck(args []string) int {
@@ -267,7 +269,7 @@ func cmdCheck(args []string) int {
 		}
 		cfg.Deadline = time.Now().Add(time.Duration(budget) * time.Second)
 		res := eng.Explore(cfg)
-		rep := &harnessReport{Name: h.Name, Bounds: tc.Bounds, Result: res}
+		rep := &harnessReport{Name: h.Name, Bounds: tc.Bounds, Result: res, NoSampleReplay: h.MapOrder || h.Repeat > 0}
 		reports = append(reports, rep)
 		fmt.Printf("harness %s: paths=%d completed=%d pruned=%d aborted=%v obligations=%d discharged=%d trivial=%d violations=%d known=%d inconclusive=%d queries=%d solver=%.1fs wall=%.1fs\n",
 			h.Name, res.Paths, res.Completed, res.Pruned, res.Aborted, res.Obligations, res.Discharged, res.TrivialTrue,
@@ -349,6 +351,9 @@ func cmdCheck(args []string) int {
 		}
 		n := 0
 		for _, s := range rep.Result.Samples {
+			if rep.NoSampleReplay {
+				break // order/schedule dependent: a native run cannot be pinned to the sampled path
+			}
 			if s["outcome"] != "completed" || n >= 3 {
 				continue
 			}
@@ -528,6 +533,16 @@ func nativeReplay(c *checkCfg, paths []string) (string, map[string]replayResult,
 	ovPath := filepath.Join(work, "overlay.json")
 	os.WriteFile(ovPath, ovb, 0o644)
 	env := append(envWithout("GOTOOLCHAIN", "PATH", "VP_REPLAY"), "PATH="+origPath, "VP_REPLAY="+strings.Join(paths, ":"))
+	for _, h := range c.Harnesses {
+		if h.MapOrder || h.Repeat > 0 {
+			n := 60
+			if h.Repeat > n {
+				n = h.Repeat
+			}
+			env = append(env, fmt.Sprintf("VP_REPEAT=%d", n))
+			break
+		}
+	}
 	bin := filepath.Join(work, "replay.test")
 	build := exec.Command("go", "test", "-c", "-vet=off", "-overlay", ovPath, "-o", bin, c.Package)
 	build.Dir = repoDir
